@@ -77,6 +77,13 @@ pub fn run(args: &[i128], ctx_id: u64) -> Vec<i128> {
             2 => c.add_edge(x as usize, y as usize, rel(z)).is_ok() as i128,
             3 => c.remove_edge(x as usize, y as usize).is_ok() as i128,
             4 => { let id = c.extra_ctx_add_new(2, x != 0); if id > count { count = id; } id as i128 }
+            // id 77 is never a context id: the op stands for a CREATION THAT PANICS (capacity overflow inside extra_ctx_add_new,
+            // caught here); like a refused selection it must answer "no" and leave everything unchanged - which is what the model
+            // does for set_current_id(77)
+            5 if x == 77 => {
+                let r = std::panic::catch_unwind(std::panic::AssertUnwindSafe(|| c.extra_ctx_add_new(usize::MAX, y != 0)));
+                if r.is_err() { 0 } else { -31337 }
+            }
             5 => c.extra_ctx_set_current_id(x as u64).is_ok() as i128,
             6 => c.extra_ctx_unset_current_id().is_ok() as i128,
             7 => c.extra_ctx_add_node(node(x)).map(|i| i as i128).unwrap_or(-1),
